@@ -33,6 +33,8 @@ REWRITES = {
     'R17': 'the k-th loop of a function lifted verbatim into a named function whose parameter list (the variables the loop reads, and `&mut` for collections it pushes to) the unit supplies; the code before and after the loop is not verified; variant: only the loop body (one iteration), with mutable locals it assigns passed in and returned; variant: one top-level statement of the function (e.g. a `match`) lifted the same way',
     'R18': 'a call to a private helper of the same impl that the unit does not know (typically: freshly extracted by a refactoring) is replaced by a block that binds the parameters to the arguments and contains the helper body verbatim; only for helpers whose body has no `return`, `?` or `.await` (so the replacement has the same control flow), only when rustc reports the helper as unknown',
     'R19': '`for (K, V) in MAP.clone()` or `for (K, V) in MAP` (by-value iteration over a HashMap, no vstd model of hash_map::IntoIter) becomes `for (vx_k, vx_v) in MAP.iter()` with `let K = vx_k.clone(); let V = vx_v.clone();` first in the body; equal under the clone==identity assumption already listed for the element types',
+    'R20': 'inline const block `const { E }` in expression position becomes `(E)` (Verus does not support const block expressions; the value of a const block is the value of its expression)',
+    'R21': 'closure whose only parameter is the wildcard `|_|` gets a named, unused parameter `|_vx_w|` (Verus accepts only variables as closure parameters)',
     'R12': 'derive(Default) expanded to the field-wise impl the derive generates (inside verus!, verified, not assumed)',
 }
 
@@ -686,6 +688,32 @@ pub assume_specification [<{q} as PartialEq>::eq] (a: &{q}, b: &{q}) -> (r: bool
             edits.append(((s + len(ex[:m19.start()].encode())) if m19 else t, t, [Seg('.iter()')]))
             edits.append((L['body'][0] + 1, L['body'][0] + 1, [Seg(f' let {mp.group(1)} = vx_k{k}.clone(); let {mp.group(2)} = vx_v{k}.clone(); ')]))
             self._rw('R19')
+        # R21: closure with the single wildcard parameter `|_|` -> `|_vx_w|` (Verus: only variables as closure parameters)
+        btxt21 = src[bs:be].decode()
+        for m21 in re.finditer(r'\|\s*_\s*\|', btxt21):
+            s21 = bs + len(btxt21[:m21.start()].encode())
+            edits.append((s21, s21 + len(m21.group(0).encode()), [Seg('|_vx_w|')]))
+            self._rw('R21')
+        # R20: inline const block `const { E }` in expression position -> `E` (Verus: "const block expressions" unsupported)
+        btxt20 = src[bs:be].decode()
+        for m20 in re.finditer(r'(?<![A-Za-z0-9_])const\s*\{', btxt20):
+            depth20, q = 0, m20.end() - 1
+            while q < len(btxt20):
+                if btxt20[q] == '{':
+                    depth20 += 1
+                elif btxt20[q] == '}':
+                    depth20 -= 1
+                    if depth20 == 0:
+                        break
+                q += 1
+            if q >= len(btxt20):
+                raise ToolLimit(f'{fn}: unbalanced const block (R20)')
+            s20 = bs + len(btxt20[:m20.start()].encode())
+            o20 = bs + len(btxt20[:m20.end()].encode())
+            c20 = bs + len(btxt20[:q].encode())
+            edits.append((s20, o20, [Seg('(')]))
+            edits.append((c20, c20 + 1, [Seg(')')]))
+            self._rw('R20')
         # R1 / R2
         for m in e['macros']:
             nm = m['name']
